@@ -172,7 +172,9 @@ def transition_options(root, events=("e", "f", None)):
             tg = [[]] + [[x] for x in singles] + pairs
             for t in tg:
                 out.append((s, ev, t, False))
-                if t and s.kind == "state" and proper(s) and all(is_desc(x, s) for x in t):
+                # type="internal": takes effect for compound sources only; on a <parallel> it is legal but the
+                # transition stays external (its domain is the nearest compound ancestor)
+                if t and s.kind in ("state", "parallel") and proper(s) and all(is_desc(x, s) for x in t):
                     out.append((s, ev, t, True))
     return out
 
